@@ -185,8 +185,21 @@ Definition h_v2_guard (a : list sx) : sx :=
   | _ => err "arity"
   end.
 
+(* (nested_levels path defi max_def) -> (null defi' max_def'): model of core._nested_levels *)
+Definition h_nested_levels (a : list sx) : sx :=
+  match a with
+  | [p; defi; md] =>
+    match as_list_of as_reptype p, as_list_of as_N defi, as_N md with
+    | Some p, Some defi, Some md =>
+      let '(nl, d', m') := nested_levels p defi md in SL [sbool nl; slist sN d'; sN m']
+    | _, _, _ => err "args"
+    end
+  | _ => err "arity"
+  end.
+
 Definition table : list (string * handler) :=
   [("shred", h_shred); ("assemble_spec", h_assemble_spec); ("assemble_page", h_assemble_page);
    ("run_v1", h_run_v1); ("run_v2", h_run_v2); ("sch", h_sch); ("shape_levels", h_shape_levels);
    ("zip_maps", h_zip_maps); ("split_guard", h_split_guard); ("v2_branch", h_v2_branch);
-   ("assemble_page_fx", h_assemble_page_fx); ("run_v1_fx", h_run_v1_fx); ("v2_guard", h_v2_guard)].
+   ("assemble_page_fx", h_assemble_page_fx); ("run_v1_fx", h_run_v1_fx); ("v2_guard", h_v2_guard);
+   ("nested_levels", h_nested_levels)].
